@@ -448,7 +448,8 @@ def repeat_to_match_shape(g, shape, dtype, axis, keepdims):
 def grad_broadcast_to(ans, x, new_shape):
     old_shape = anp.shape(x)
     assert anp.shape(ans) == new_shape
-    assert len(old_shape) == len(new_shape), "Can't handle extra leading dims"
+    if len(old_shape) != len(new_shape):
+        raise NotImplementedError("Can't handle extra leading dims")
     broadcast_axes = tuple(
         onp.where(onp.logical_and(onp.array(old_shape) == 1, onp.array(new_shape) > 1))[0]
     )
@@ -986,7 +987,8 @@ def _unpad(array, width):
 
 
 def pad_vjp(ans, array, pad_width, mode, **kwargs):
-    assert mode == "constant", "Only constant mode padding is supported."
+    if mode != "constant":
+        raise NotImplementedError("Only constant mode padding is supported.")
     return lambda g: _unpad(g, pad_width)
 
 
